@@ -179,7 +179,12 @@ def h_blockmean(ctx):
     keep_extra = cfg.get("drop") is False
     if keep_extra:
         gkw["drop_coords"] = False
-    bm = vd.BlockMean(uncertainty=(mode == "uncertainty"), center_coordinates=cfg.get("center", False), **gkw)
+    if cfg.get("set_params"):
+        # parameters are read when filtering, not frozen at construction
+        bm = vd.BlockMean(uncertainty=(mode != "uncertainty"), center_coordinates=not cfg.get("center", False), **gkw)
+        bm.set_params(uncertainty=(mode == "uncertainty"), center_coordinates=cfg.get("center", False))
+    else:
+        bm = vd.BlockMean(uncertainty=(mode == "uncertainty"), center_coordinates=cfg.get("center", False), **gkw)
     darg = tuple(data) if ncomp > 1 else data[0]
     warg = None if weights is None else (tuple(weights) if ncomp > 1 else weights[0])
     old_v2w = vb.variance_to_weights
@@ -293,6 +298,8 @@ def _cfg_bm(tier, seed):
     out.append({"shape": (1, 2), "members": [1, 0, 1, 0], "ncomp": 2, "mode": "uncertainty"})
     out.append({"shape": (1, 2), "members": [1, 0, 0, 1], "ncomp": 2, "mode": "weighted", "mem": "F", "pshape": (2, 2)})
     out.append({"shape": (2, 2), "members": [3, 1, 3], "ncomp": 1, "mode": "none", "center": True})
+    out.append({"shape": (1, 2), "members": [0, 0, 1], "ncomp": 1, "mode": "uncertainty", "set_params": True})
+    out.append({"shape": (1, 2), "members": [0, 0, 1], "ncomp": 1, "mode": "weighted", "set_params": True, "center": True})
     out.append({"shape": (1, 2), "members": [1, 0, 1], "ncomp": 1, "mode": "weighted", "geom": "adjust_region", "center": True})
     out.append({"shape": (1, 2), "members": [0, 1, 1], "ncomp": 1, "mode": "uncertainty", "geom": "spacing", "drop": False})
     out.append({"shape": (2, 1), "members": [1, 0, 1], "ncomp": 1, "mode": "none", "geom": "inferred"})
